@@ -248,7 +248,10 @@ impl<'a> G<'a> {
                 }
             }
             4 => {
-                if self.r.bool() {
+                if self.r.chance(1, 6) {
+                    // the hardware-qubit form has no name node
+                    format!("qubit {};", self.r.pick(&["$0", "$1", "$12"]))
+                } else if self.r.bool() {
                     format!("qubit {};", self.name())
                 } else {
                     format!("qubit[{}] {};", self.r.pick(&["1", "2", "4", "n"]), self.name())
